@@ -241,6 +241,8 @@ static Profile profile(const std::string& name, bool T) {
             if (!T && !((h == 0) || (tps == 1000000 && m == 2) || (h == 3 && tps == 1 && m == 3) || (h == 5 && tps == 1000000000 && m == 10000) || (h == 6 && tps == 1000 && m == 3) || (h == 7 && tps == 1000000 && m == 10000))) continue;
             p.cfgs.push_back({"h" + std::to_string(h) + "_t" + std::to_string(tps) + "_m" + std::to_string(m), {PS(m, tps, h, m == 2), PS(m == 1 ? 2 : 1, tps == 1000 ? 1000000 : 1000, h == 0 ? 3 : 0)}, PS(2, 1000, 0)});
         }
+        // tick rates beyond 32 bits (2^32: NTP-style binary fraction; 5 * 10^9)
+        p.cfgs.push_back({"h0_t2p32_m2", {PS(2, 1ULL << 32, 0), PS(3, 5000000000ULL, 0)}, PS(2, 1000, 0)});
         p.runs = {{"", S_MEM, 0}}; p.depth_q = 3; p.depth_t = 4;
     } else if (name == "wellformed") {
         p.alphabet = {"qr1", "qr1s3", "qr5s3", "qr0s1", "aec0s3", "mm0", "mm1s3", "mm2s1", "wb", "rotx", "rotn", "addbp", "act1", "act0"};
